@@ -32,6 +32,7 @@ type PipeGenOpts struct {
 	FillToMax   bool // some datagrams are padded to within 40 octets of max-udp-size
 	SmallUDP    bool // max-udp-size may be small
 	BadHeaders  bool // datagrams whose header must be rejected (wrong version, too short)
+	Volume      bool // one worker, several hundred datagrams, a slow consumer: more than a megabyte of output waits in or has passed through one worker's hands
 	MidPolls    bool // stats API read in the middle of phases as well
 	SockLoss    bool // tiny socket receive queue: bursts lose datagrams before the collector reads them
 	Dyn         bool // dynamic workers: load peak, long idle period (scale-down), then traffic again
@@ -570,6 +571,33 @@ func genPipePlan(seed int64, o PipeGenOpts) *PipePlan {
 			p.NPhases = 3
 		}
 	}
+	if o.Volume && !o.Dyn {
+		// volume: the data datagrams of the later phases are sent again and again
+		// (new sequence numbers) until several hundred are in flight towards one
+		// worker per protocol, and the consumer of the outgoing queue is slow
+		for _, k := range allProtos {
+			p.Cfg.Workers[k] = 1
+		}
+		p.Cfg.CapUDP = 1000
+		p.Cfg.CapMQ = 1000
+		p.Cfg.SockQueue = 4096
+		p.Cfg.TapDelayUs = []int{0, 200, 2000}[r.Intn(3)]
+		var src []int
+		for i := range p.Dels {
+			d := &p.Dels[i]
+			if d.Phase >= 1 && d.DupOf == 0 && !d.BadHeader && d.Raw == nil && len(d.Mut) == 0 {
+				src = append(src, i)
+			}
+		}
+		total := 500 + r.Intn(350)
+		for n := 0; len(src) > 0 && n < total; n++ {
+			d := p.Dels[src[n%len(src)]]
+			d.AtUs = r.Intn(20000)
+			d.AbsUs = 0
+			restamp(&d, uint32(100000+len(p.Dels)))
+			add(d)
+		}
+	}
 	if o.BadHeaders {
 		// rejected datagrams, interleaved with the rest: wrong version or
 		// shorter than the protocol header
@@ -801,7 +829,13 @@ func shrinkPipe(planJSON []byte) [][]byte {
 	}
 	n := len(p.Dels)
 	// halves, quarters, then single deliveries
-	for chunk := n / 2; chunk >= 1; chunk /= 2 {
+	// (a plan of several hundred deliveries is megabytes of JSON per candidate:
+	// only coarse chunks then - the finer ones come once it has shrunk)
+	minChunk := 1
+	if n > 120 {
+		minChunk = n / 16
+	}
+	for chunk := n / 2; chunk >= minChunk && chunk >= 1; chunk /= 2 {
 		for s := 0; s < n; s += chunk {
 			s, e := s, s+chunk
 			drop(func(i int, d *Delivery) bool { return i < s || i >= e })
